@@ -28,7 +28,8 @@ LEVEL_TEXT = (
     "iterations, two different keepers) / forged; afterwards genuine and forged TimerNotify and SecureWrapper frames at timer offsets ahead, inside the "
     "synchronisation tolerance, inside the latency tolerance, on the boundary and late, wrong-key / bit-flipped / other-session / nested wrappers, plain "
     "frames of all 29 body classes, unknown services and garbage, well formed frames cut short / extended / with one octet replaced (plain and inside an authentic wrapper), echoes, interleaved with our own sends and idle periods that let the periodic notify "
-    "fire; latency tolerance 100..3000 ms. Histories are sampled, hence exploration."
+    "fire; latency tolerance 100..3000 ms. The same SecureRouting object is also disconnected and connected again inside a history (second synchronisation answered by a keeper that is "
+    "level or ahead, or unanswered) with sends before and after; timer monotonicity of outgoing wrappers is judged across the restart. Histories are sampled, hence exploration."
 )
 LEVEL_NOTE = (
     "Trusted: vlib/refcrypto_ip.py (self-tested against the recorded vectors at start; failure => inconclusive), the virtual loop. Judged: a plain frame "
@@ -54,7 +55,7 @@ MAIN_KINDS = (
     "tn-ahead", "tn-sync", "tn-latency", "tn-boundary", "tn-late", "tn-forged-key", "tn-forged-bit", "tn-forged-late",
     "w-ahead", "w-sync", "w-latency", "w-boundary", "w-late", "w-late", "w-forged-key", "w-forged-bit", "w-forged-late", "w-other-session", "w-nested", "w-forbidden",
     "w-busy", "w-lost", "w-search", "plain", "plain", "plain", "plain-unknown", "garbage", "echo-own", "echo-foreign", "send", "send", "send", "idle-short", "idle-long",
-    "tn-own-identity", "w-busy-fade-out", "w-busy-fade-out", "plain-malformed", "plain-malformed", "w-inner-malformed", "w-inner-malformed", "w-inner-garbage",
+    "tn-own-identity", "restart-answered", "restart-unanswered", "w-busy-fade-out", "w-busy-fade-out", "plain-malformed", "plain-malformed", "w-inner-malformed", "w-inner-malformed", "w-inner-garbage",
 )
 NO_DIB = tuple(n for n in all_body_class_names() if n not in ("SearchResponse", "SearchResponseExtended", "DescriptionResponse", "SearchRequestExtended"))
 
@@ -120,12 +121,20 @@ def run_history(ctx, spec):
                 return c["serial"], c["tag"]
         return None
 
+    def latest_sync_identity():
+        for _, data in reversed(tx_records()):
+            c = peer.classify(data)
+            if c["kind"] == "timer_notify":
+                return c["serial"], c["tag"]
+        return None
+
     def inject(kind, raw, cls, sock="listener", addr=PEER_ADDR):
         """Deliver one datagram and judge it. cls: dict(kind=plain|tn|wrapper|garbage, authentic=bool, timer=int|None, service=int|None, inner=bytes|None, session0=bool)."""
-        listener, unicast = loop.datagram_transports[0], loop.datagram_transports[1]
-        tr = listener if sock == "listener" else unicast
-        if tr.closed:
+        want = "multicast_listener" if sock == "listener" else "udp"
+        live = [t for t in loop.datagram_transports if t.kind == want and not t.closed]
+        if not live:
             return
+        tr = live[-1]  # the endpoints of the current connection (the same SecureRouting object may have been restarted)
         inner = cls.get("inner")
         if cls["kind"] == "wrapper" and cls["authentic"] and inner and ref.service_of(inner) == 0x0532 and len(inner) >= 10:
             st["max_busy_wait"] = max(st.get("max_busy_wait", 0), int.from_bytes(inner[8:10], "big"))
@@ -351,6 +360,32 @@ def run_history(ctx, spec):
             inject(kind, *wrapper(local + 5, inner=ref.header(svc, 6 + len(body)) + body, unforwardable=True))
         elif kind == "w-busy":
             inject(kind, *wrapper(local + rng.choice((0, 5)), inner=KNXIPFrame.init_from_body(RoutingBusy(wait_time=rng.choice((0, 20, 50)))).to_knx()))
+        elif kind in ("restart-answered", "restart-unanswered"):
+            # the same SecureRouting object is stopped and started again; wrappers are sent before and after.
+            # The statement does not reset: outgoing timer values must not decrease across the restart.
+            await main_event("send", routing, tmr)
+            await routing.disconnect()
+            await asyncio.sleep(rng.choice((0.0, 0.125, 0.5, 2.375)))
+            before = len(tx_records())
+            task = asyncio.create_task(routing.connect())
+            await asyncio.sleep(rng.choice((0.001, 0.15)))
+            if kind == "restart-answered" and len(tx_records()) > before and not task.done():
+                ident = latest_sync_identity()
+                # a time keeper that is level with or ahead of us (a keeper behind us is not part of the histories)
+                value = tmr.current_timer_value() + rng.choice((0, 1, 12345, 3_600_000))
+                st["anchor"] = None
+                inject("restart-sync-reply", *tn(value, serial=ident[0], tag=ident[1]))
+            try:
+                await asyncio.wait_for(task, 30)
+            except Exception as exc:  # noqa: BLE001
+                kinds.append("reconnect-" + type(exc).__name__)
+                ctx.count("reconnect_raised_" + type(exc).__name__)
+                return
+            st["anchor"] = (tmr.current_timer_value(), clock_ms())
+            kinds.append(kind)
+            ctx.count("restarts_of_the_same_secure_routing_object")
+            ctx.count("restart_second_sync_" + ("timekeeper" if tmr.timekeeper else "follower"))
+            await main_event("send", routing, tmr)
         elif kind == "w-busy-fade-out":
             # three authentic, timely wrapped RoutingBusy frames: #2 more than 10 ms after #1 while pausing (busy counter >= 1),
             # #3 after sending resumed but inside the N x 100 ms slow-duration fade-out; then a send, which must still complete
@@ -544,7 +579,7 @@ def run(ctx):
     ctx.require(
         "histories", "delivered_plain", "delivered_tn", "delivered_wrapper", "delivered_garbage", "plain_discovery_forwarded", "plain_other_dropped",
         "valid_timely_wrapper_forwarded", "late_wrapper_dropped", "unauthentic_wrapper_dropped", "tn_authentic", "tn_unauthentic",
-        "timer_moved_by_tn", "timer_moved_by_wrapper", "malformed_injected", "busy_fade_out_patterns", "tx_wrappers", "tx_timer_notifies", "synchronised_as_timekeeper", "synchronised_as_follower", "sends",
+        "timer_moved_by_tn", "timer_moved_by_wrapper", "malformed_injected", "busy_fade_out_patterns", "restarts_of_the_same_secure_routing_object", "restart_second_sync_timekeeper", "restart_second_sync_follower", "tx_wrappers", "tx_timer_notifies", "synchronised_as_timekeeper", "synchronised_as_follower", "sends",
     )
     n = ctx.scale(700, 200000)
     for i in range(n):
